@@ -97,6 +97,10 @@ def gen_net(rng, version, inner=False):
             d["dup"] = rng.randint(1, 2)
         if rng.random() < 0.15:
             d["dup_late"] = rng.choice([0.01, 0.3])
+    if not inner and not d.get("post") and not d.get("dup") and not d.get("dup_late") and rng.random() < 0.06:
+        # the unit closes the connection right behind its answer - in the same instant, or a moment later
+        d["close"] = "after"
+        d["same_tick"] = rng.random() < 0.6
     if version == 3 and not coalesced_pre:
         c = choose_cuts(rng, 0)
         if c is not None:
